@@ -15,6 +15,13 @@ pub struct Case {
     /// every k-th call is made with all channels masked off (0: never); its returned counts enter the totals
     #[serde(default)]
     pub masked_every: u16,
+    /// reset() after every k-th call (0: never): a new stream starts, the totals restart with it
+    #[serde(default)]
+    pub reset_every: u16,
+    /// before every k-th call (0: never) a call with a too short output buffer is made, which must be rejected and
+    /// must not count
+    #[serde(default)]
+    pub reject_every: u16,
 }
 
 pub struct C07;
@@ -72,6 +79,12 @@ fn run_t<T: SampleX>(c0: &Case) -> Outcome {
     if c0.masked_every > 0 {
         o.class("with all-masked calls");
     }
+    if c0.reset_every > 0 {
+        o.class("with resets in mid-stream");
+    }
+    if c0.reject_every > 0 {
+        o.class("with rejected calls in between");
+    }
     for call in 0..c0.calls {
         if kind.is_sinc() && !c0.schedule.is_empty() {
             let (after, frac) = c0.schedule[sched_i % c0.schedule.len()];
@@ -89,6 +102,13 @@ fn run_t<T: SampleX>(c0: &Case) -> Outcome {
         if outbuf[0].len() < on {
             outbuf[0].resize(on, T::of64(0.0));
         }
+        if c0.reject_every > 0 && (call + 1) % c0.reject_every as u32 == 0 && on > 0 {
+            let mut short: Vec<Vec<T>> = vec![vec![T::of64(0.0); on - 1]];
+            if res.pib(&inbuf, &mut short, None).is_ok() {
+                o.fail(format!("short-output-accepted:{}", kind.name()), format!("call {}: an output buffer of {} frames was accepted although {} are due", call, on - 1, on));
+                return o;
+            }
+        }
         let all_off = [false];
         let mask: Option<&[bool]> = if c0.masked_every > 0 && (call + 1) % c0.masked_every as u32 == 0 { Some(&all_off) } else { None };
         let (ni, no) = match res.pib(&inbuf, &mut outbuf, mask) {
@@ -102,6 +122,7 @@ fn run_t<T: SampleX>(c0: &Case) -> Outcome {
         to += no as u128;
         since += 1;
         done += 1;
+        let restart = c0.reset_every > 0 && (call + 1) % c0.reset_every as u32 == 0;
         if kind.is_async() {
             let d = (to as f64 - r * ti as f64).abs();
             if d / bound > worst {
@@ -131,6 +152,12 @@ fn run_t<T: SampleX>(c0: &Case) -> Outcome {
                 return o;
             }
         }
+        if restart {
+            res.rst();
+            ti = 0;
+            to = 0;
+            since = 0;
+        }
     }
     o.maxi(&format!("worst_drift_over_bound:{}", kind.name()), worst);
     o.count("calls", done as u64);
@@ -158,8 +185,8 @@ impl Property for C07 {
         sp.probes = false;
         let sched = prop_oneof![2 => Just(vec![]), 1 => proptest::collection::vec((0u16..50, any::<u16>()), 1..6)];
         let calls = if th { prop_oneof![3 => 1000u32..20_000, 1 => 100_000u32..1_000_000].boxed() } else { prop_oneof![1 => 200u32..1000, 3 => 1000u32..5000].boxed() };
-        (config_strategy(sp), calls, sched, any::<bool>(), prop_oneof![3 => Just(0u16), 1 => 1u16..=7])
-            .prop_map(move |(mut cfg, calls, schedule, tiny, masked_every)| {
+        (config_strategy(sp), calls, sched, any::<bool>(), prop_oneof![3 => Just(0u16), 1 => 1u16..=7], prop_oneof![3 => Just(0u16), 1 => 1u16..=40], prop_oneof![3 => Just(0u16), 1 => 1u16..=9])
+            .prop_map(move |(mut cfg, calls, schedule, tiny, masked_every, reset_every, reject_every)| {
                 cfg.max_rel = 1.0;
                 cfg.channels = 1;
                 if tiny {
@@ -177,7 +204,7 @@ impl Property for C07 {
                 while call_cost(&cfg) * calls as f64 > budget && calls > 1000 {
                     calls /= 2;
                 }
-                Case { cfg, calls, schedule, masked_every }
+                Case { cfg, calls, schedule, masked_every, reset_every, reject_every }
             })
             .boxed()
     }
